@@ -64,6 +64,16 @@ pub fn check_total(text: &str) -> (Option<(&'static str, String)>, u64, u64) {
             counters.nodes_started,
         );
     }
+    if counters.errors_reported > NODES_PER_TOKEN * (t + 1) {
+        return (
+            Some((
+                "work-bound",
+                format!("{} syntax errors reported for {t} tokens (bound {}*(T+1))", counters.errors_reported, NODES_PER_TOKEN),
+            )),
+            t,
+            counters.nodes_started,
+        );
+    }
     for e in parsed.errors() {
         let (s, en): (usize, usize) = (e.range.start().into(), e.range.end().into());
         if e.message.trim().is_empty() {
@@ -178,8 +188,8 @@ impl Engine for C02 {
 
     fn assumptions(&self) -> Vec<String> {
         vec![
-            "termination is decided by fuel: 256*(bytes+1)+256 ticks of ParserBase::{lex,start_node,start_node_at,save} (hook H1); a loop that makes none of these calls would only be caught by the worker's wall budget".into(),
-            "work bound checked: nodes started <= 64*(tokens+1), tokens saved == leaf tokens, lex calls <= tokens+1".into(),
+            "termination is decided by fuel: 256*(bytes+1)+256 ticks of ParserBase::{lex,start_node,start_node_at,save,error} (hook H1); a loop that makes none of these calls would only be caught by the worker's wall budget and address-space limit".into(),
+            "work bound checked: nodes started <= 64*(tokens+1), syntax errors reported <= 64*(tokens+1), tokens saved == leaf tokens, lex calls <= tokens+1".into(),
             "nesting deeper than 256 is outside the property; every case runs on a thread with a 2 MiB stack like a server request".into(),
         ]
     }
